@@ -113,7 +113,8 @@ Fixpoint partial (e : expr) : bool :=
   | Let _ _ a b => negb (always a && always b)
   | Class _ ms => negb ((fix all (l : list (option nat * bool * expr)) : bool :=
                      match l with [] => true | (_, _, e) :: l' => always e && all l' end) ms)
-  | OpTable _ o _ _ => negb (always o) && partial o
+  (* operator_table.py: the table also fails after consuming when a prefix operator is not followed by an operand *)
+  | OpTable pre o _ _ => negb (always o) && (match pre with Some _ => true | None => partial o end)
   | RefL _ | Call _ _ => true
   end.
 End Flags.
@@ -453,10 +454,10 @@ Fixpoint postfix_loop (k : nat) (pe : expr) (s : st) (o : ost) : option (st * os
     end
   end.
 
-(* the precedence loop after an infix operator: (ost, position register) *)
-Fixpoint prec_loop (k : nat) (prec : nat) (o : ost) (p : nat) : option (ost * nat) :=
+(* the precedence loop after an infix operator: (ost, position register, chained non-associative operator?) *)
+Fixpoint prec_loop (k : nat) (prec : nat) (o : ost) (p : nat) : option (ost * nat * bool) :=
   match k with
-  | 0 => Some (o, p)
+  | 0 => Some (o, p, false)
   | S k =>
     match ops o with
     | top :: _ =>
@@ -464,11 +465,11 @@ Fixpoint prec_loop (k : nat) (prec : nat) (o : ost) (p : nat) : option (ost * na
         | Some tp, Some ta =>
             if Nat.ltb tp prec || (Nat.eqb tp prec && Nat.eqb ta 1)
             then match pop_operator o with Some o' => prec_loop k prec o' p | None => None end
-            else if Nat.eqb tp prec && Nat.eqb ta 3 then Some (o, outer o)
-            else Some (o, p)
+            else if Nat.eqb tp prec && Nat.eqb ta 3 then Some (o, outer o, true)
+            else Some (o, p, false)
         | _, _ => None
         end
-    | [] => Some (o, p)
+    | [] => Some (o, p, false)
     end
   end.
 
@@ -503,7 +504,8 @@ Fixpoint op_main (k : nat) (pre : option expr) (opd : expr) (post inf : option e
       match ex opd s with
       | Done s1 =>
         if negb (always opd) && negb (status s1) then
-          op_finish (if partial opd && nonempty (opds o) then upd s1 (status s1) (result s1) (outer o) else s1) o
+          (* the operators consumed after the last complete operand are given back *)
+          op_finish (if nonempty (opds o) then upd s1 (status s1) (result s1) (outer o) else s1) o
         else
           let o1 := OS (result s1 :: opds o) (ops o) (marker o) (outer o) in
           let after_postfixes (s2 : st) (o2 : ost) : out :=
@@ -519,7 +521,11 @@ Fixpoint op_main (k : nat) (pre : option expr) (opd : expr) (post inf : option e
                   match as_nat (tuple_nth (result s3) 0) with
                   | Some prec =>
                       match prec_loop (length (ops o3) + 1) prec o3 (pos s3) with
-                      | Some (o4, p4) =>
+                      | Some (o4, p4, chained) =>
+                          if chained then
+                            (* a non-associative operator cannot be chained: the expression ends before it *)
+                            op_finish (upd s3 (status s3) (result s3) p4) o4
+                          else
                           let o5 := OS (opds o4) (result s3 :: ops o4) (length (ops o4)) (outer o4) in
                           op_main k pre opd post inf (upd s3 (status s3) (result s3) p4) o5
                       | None => Stuck 12
